@@ -32,6 +32,8 @@ func runC18(w *World, r *Report) {
 	c18Sorted(w, r)
 	c18ExactFirst(w, r)
 	c18ToleratedLast(w, r)
+	c18TagsSorted(w, r)
+	c18SameParser(w, r)
 	c18Resolve(w, r)
 }
 
@@ -846,4 +848,91 @@ func isErrorLike(t types.Type) bool {
 		return true
 	}
 	return false
+}
+
+// c18TagsSorted: the registry tag list is sorted as a whole, newest first, after the last page was
+// received (the callers take the first tag that satisfies a constraint).
+func c18TagsSorted(w *World, r *Report) {
+	r.Rule("C18/TAGS-SORTED", "registry.Client.Tags sorts the complete list descending (sort.Reverse) in the function itself, after the paginated listing returned and before every success return", 1)
+	fn := w.Fn("pkg/registry", "Client.Tags")
+	if fn == nil {
+		r.Unk("C18/TAGS-SORTED", "anchor", "-", "registry.Client.Tags not found")
+		return
+	}
+	r.Fn(FuncName(fn))
+	g := FullGraph(fn)
+	var listing, sorts []ssa.Instruction
+	for _, c := range callInstrs(fn) {
+		f, tf := calleeOf(c.Common())
+		if tf != nil && tf.Name() == "Tags" && tf.Pkg() != nil && strings.Contains(tf.Pkg().Path(), "oras") {
+			listing = append(listing, c)
+		}
+		if f == nil {
+			continue
+		}
+		if fnPkgPath(f) == "sort" && (f.Name() == "Sort" || f.Name() == "Stable") {
+			if rc, ok := unwrapIface(c.Common().Args[0]).(*ssa.Call); ok {
+				if rf, _ := calleeOf(rc.Common()); rf != nil && fnPkgPath(rf) == "sort" && rf.Name() == "Reverse" {
+					sorts = append(sorts, c)
+				}
+			}
+		}
+	}
+	ok, why := len(sorts) > 0 && len(listing) > 0, "the complete list is not sorted descending in Tags itself (a sort inside the per-page callback orders each page separately)"
+	if ok {
+		for _, rp := range g.classifyReturns() {
+			if rp.Class != RetSuccess {
+				continue
+			}
+			if ex, _ := g.PathExists(entryPos(fn), retPos(rp), avoidInstrs(sorts...)); ex {
+				ok, why = false, "a success return is reachable without the sort"
+			}
+		}
+		for _, s := range sorts {
+			for _, l := range listing {
+				if ex, _ := g.PathExists(posOf(s), posOf(l), Avoid{}); ex {
+					ok, why = false, "tags can still be received after the list was sorted"
+				}
+			}
+		}
+	}
+	r.Check(ok, "C18/TAGS-SORTED", "Tags", w.Pos(fn.Pos()), "the whole tag list is sorted newest first before it is returned", why)
+}
+
+// c18SameParser: entries of a repository index are parsed with semver.NewVersion everywhere (the
+// index loader accepts what that parser accepts: "v1.2.0", "1.3"); a stricter parser in the resolver
+// would silently skip valid entries.
+func c18SameParser(w *World, r *Report) {
+	r.Rule("C18/SAME-PARSER", "version strings of index entries (ChartVersion / Metadata .Version) are parsed with semver.NewVersion in the index, resolver and downloader code (never with StrictNewVersion)", 1)
+	n, bad := 0, ""
+	for _, rel := range []string{"pkg/repo", "internal/resolver", "pkg/downloader"} {
+		for _, fn := range w.FuncsIn(rel) {
+			for _, c := range callInstrs(fn) {
+				f, _ := calleeOf(c.Common())
+				if f == nil || !strings.HasSuffix(fnPkgPath(f), "Masterminds/semver/v3") || (f.Name() != "NewVersion" && f.Name() != "StrictNewVersion") {
+					continue
+				}
+				isEntryVersion := false
+				backSlice(c.Common().Args[0], func(v ssa.Value) bool {
+					if ld, ok := v.(*ssa.UnOp); ok && ld.Op == token.MUL {
+						if _, t, fld := fieldNameOf(ld.X); fld == "Version" && (t == "Metadata" || t == "ChartVersion") {
+							isEntryVersion = true
+							return true
+						}
+					}
+					_, isCall := v.(*ssa.Call)
+					return isCall
+				})
+				if !isEntryVersion {
+					continue
+				}
+				n++
+				r.Fn(FuncName(fn))
+				if f.Name() == "StrictNewVersion" {
+					bad = w.InstrPos(c)
+				}
+			}
+		}
+	}
+	r.Check(bad == "" && n > 0, "C18/SAME-PARSER", "entry-versions", "-", "every parse of an index entry's version uses semver.NewVersion", "an index entry's version is parsed with StrictNewVersion at "+bad+": entries the index loader accepted ('v1.2.0', '1.3') are skipped there, so a lower version wins")
 }
